@@ -18,6 +18,8 @@ use std::path::Path;
 
 const STREAM_CRAM: u64 = 73;
 const STREAM_COMPAT: u64 = 74;
+/// `e2e-testdoc-cram-compat-strip-ansi`: the same generator, focused on `strip_ansi_escaping`
+const STREAM_COMPAT_STRIP: u64 = 75;
 
 #[derive(Clone, Copy, PartialEq, Debug)]
 pub(crate) enum Format {
@@ -62,8 +64,11 @@ enum ICfg {
     KeepCrlf,
     Combined,
     Skip80,
-    /// not carried into the script's configuration: without effect
+    /// `set_consistent!(strip_ansi_escaping)`: on ONE block accepted only on the last one (or a single one); on all
+    /// blocks (`DocCfg::AllStripAnsi`) the whole captured stream is stripped
     StripAnsi,
+    /// `strip_ansi_escaping: false` (a value of its own for `set_consistent!`: differs from an unset key)
+    NoStripAnsi,
     // these differ from the defaults: every block of the document has to carry them
     Stderr,
     Stdout,
@@ -83,6 +88,7 @@ impl ICfg {
             ICfg::Combined => " {output_stream: combined}",
             ICfg::Skip80 => " {skip_document_code: 80}",
             ICfg::StripAnsi => " {strip_ansi_escaping: true}",
+            ICfg::NoStripAnsi => " {strip_ansi_escaping: false}",
             ICfg::Stderr => " {output_stream: stderr}",
             ICfg::Stdout => " {output_stream: stdout}",
             ICfg::NoKeepCrlf => " {keep_crlf: false}",
@@ -102,6 +108,8 @@ enum DocCfg {
     AllStdout,
     AllNoKeepCrlf,
     AllSkip3,
+    /// `strip_ansi_escaping: true` on every block: ANSI escape sequences are removed from what is compared
+    AllStripAnsi,
     /// `Plain`, but ONE block carries something else (the others do not): refused unless the document is consistent
     /// by the rule of `set_consistent!` (single block; `detached: false` on the last block)
     Deviant,
@@ -183,6 +191,8 @@ struct SDoc {
     broken: Option<(AnyBroken, usize)>,
     fillers: Vec<Vec<usize>>,
     escaper: Escaper,
+    /// the stdout of this test ends in an unterminated OSC `ESC ] 0 ; t` (no statement by the direct oracles)
+    open_osc: Option<usize>,
 }
 
 const CRAM_FILLERS: [&str; 6] = ["Some prose.\n", "# a comment line\n", "\n", " one blank is no indentation\n", "\n\n", "A title that is replaced\n"];
@@ -203,9 +213,100 @@ fn compared(cfg: DocCfg, out: &[u8], err: &[u8], other: bool) -> Vec<u8> {
     };
     if cfg == DocCfg::AllNoKeepCrlf {
         drop_crlf(&raw)
+    } else if cfg == DocCfg::AllStripAnsi {
+        strip_own(&raw)
     } else {
         raw
     }
+}
+
+/// ANSI escape sequences removed, re-stated from the documentation of `strip_ansi_escaping` / ECMA-48 (NOT the
+/// library function): CSI `ESC [` parameter bytes 0x30..0x3f, intermediate bytes 0x20..0x2f, one final byte
+/// 0x40..0x7e; the control strings OSC `ESC ]`, DCS `ESC P`, SOS `ESC X`, PM `ESC ^`, APC `ESC _` up to BEL or
+/// `ESC \` (or the end); any other `ESC`, intermediate bytes, one final byte 0x30..0x7e. Every other byte stays.
+fn strip_own(b: &[u8]) -> Vec<u8> {
+    let mut v = vec![];
+    let mut i = 0;
+    while i < b.len() {
+        if b[i] != 0x1b {
+            v.push(b[i]);
+            i += 1;
+            continue;
+        }
+        i += 1;
+        match b.get(i) {
+            None => {}
+            Some(b'[') => {
+                i += 1;
+                while i < b.len() && (0x30..=0x3f).contains(&b[i]) {
+                    i += 1;
+                }
+                while i < b.len() && (0x20..=0x2f).contains(&b[i]) {
+                    i += 1;
+                }
+                if i < b.len() && (0x40..=0x7e).contains(&b[i]) {
+                    i += 1;
+                }
+            }
+            Some(b']' | b'P' | b'X' | b'^' | b'_') => {
+                i += 1;
+                while i < b.len() {
+                    if b[i] == 7 {
+                        i += 1;
+                        break;
+                    }
+                    if b[i] == 0x1b && b.get(i + 1) == Some(&b'\\') {
+                        i += 2;
+                        break;
+                    }
+                    i += 1;
+                }
+            }
+            Some(_) => {
+                while i < b.len() && (0x20..=0x2f).contains(&b[i]) {
+                    i += 1;
+                }
+                if i < b.len() && (0x30..=0x7e).contains(&b[i]) {
+                    i += 1;
+                }
+            }
+        }
+    }
+    v
+}
+
+/// a payload whose lines hold SGR sequences (`ESC [ … m`) around and inside the text
+fn sgr_payload(rng: &mut Rng) -> Vec<u8> {
+    const PLAIN: [&[u8]; 8] = [b"foo", b"bar", b"beta gamma", b"x", b"total: 3", b"line 3", b"  indented", b"alpha"];
+    const SGR: [&[u8]; 6] = [b"\x1b[1m", b"\x1b[0m", b"\x1b[31m", b"\x1b[38;5;196m", b"\x1b[m", b"\x1b[1;4m"];
+    let n = rng.range(1, 3);
+    let mut o = vec![];
+    for k in 0..n {
+        let line = *rng.pick(&PLAIN);
+        match rng.below(4) {
+            0 => o.extend_from_slice(line),
+            1 => {
+                o.extend_from_slice(*rng.pick(&SGR));
+                o.extend_from_slice(line);
+                o.extend_from_slice(b"\x1b[0m");
+            }
+            2 => {
+                let at = rng.range(0, line.len());
+                o.extend_from_slice(&line[..at]);
+                o.extend_from_slice(*rng.pick(&SGR));
+                o.extend_from_slice(&line[at..]);
+            }
+            _ => {
+                o.extend_from_slice(*rng.pick(&SGR));
+                o.extend_from_slice(*rng.pick(&SGR));
+                o.extend_from_slice(line);
+            }
+        }
+        if k + 1 < n || rng.chance(5, 6) {
+            o.push(b'\n');
+        }
+    }
+    o
 }
 
 fn cram_escape(line: &str) -> String {
@@ -271,13 +372,17 @@ fn cram_glob_body(rng: &mut Rng, bytes: &[u8]) -> (Vec<String>, bool) {
     (body, all_right)
 }
 
-fn gen_doc(fmt: Format, seed: u64, idx: u64) -> SDoc {
-    let mut rng = Rng::fork(seed, fmt.stream(), idx);
+fn gen_doc(fmt: Format, seed: u64, idx: u64, strip_focus: bool) -> SDoc {
+    let mut rng = Rng::fork(seed, if strip_focus { STREAM_COMPAT_STRIP } else { fmt.stream() }, idx);
     let escaper = if rng.chance(2, 3) { Escaper::Ascii } else { Escaper::Unicode };
     let n: usize = if rng.chance(1, 40) { 0 } else { rng.range(1, 4) };
     let cfg = match (fmt, rng.below(100)) {
         (Format::Cram, _) => DocCfg::Plain,
-        (_, 0..=54) => DocCfg::Plain,
+        (_, 0..=69) if strip_focus => DocCfg::AllStripAnsi,
+        (_, 70..=89) if strip_focus => DocCfg::Deviant,
+        (_, _) if strip_focus => DocCfg::Plain,
+        (_, 0..=46) => DocCfg::Plain,
+        (_, 47..=54) => DocCfg::AllStripAnsi,
         (_, 55..=64) => DocCfg::AllStderr,
         (_, 65..=69) => DocCfg::AllStdout,
         (_, 70..=77) => DocCfg::AllNoKeepCrlf,
@@ -285,11 +390,13 @@ fn gen_doc(fmt: Format, seed: u64, idx: u64) -> SDoc {
         _ => DocCfg::Deviant,
     };
     let deviant_at = rng.below(n.max(1) as u64) as usize;
-    let deviant_cfg = *rng.pick(&[ICfg::Stderr, ICfg::Stdout, ICfg::NoKeepCrlf, ICfg::Skip3, ICfg::Timeout, ICfg::DetachedFalse, ICfg::DetachedFalse]);
+    let deviant_cfg = if strip_focus { *rng.pick(&[ICfg::StripAnsi, ICfg::StripAnsi, ICfg::NoStripAnsi]) } else { *rng.pick(&[ICfg::Stderr, ICfg::Stdout, ICfg::NoKeepCrlf, ICfg::Skip3, ICfg::Timeout, ICfg::DetachedFalse, ICfg::DetachedFalse, ICfg::StripAnsi, ICfg::NoStripAnsi]) };
+    let open_osc = if cfg == DocCfg::AllStripAnsi && n > 0 && rng.chance(1, 6) { Some(rng.below(n as u64) as usize) } else { None };
     let leaves_at = if rng.chance(1, 8) { Some(rng.below(n.max(1) as u64) as usize) } else { None };
     let mut tests = vec![];
     for k in 0..n {
         let mode = match rng.below(100) {
+            _ if strip_focus && rng.chance(2, 3) => SMode::Base(Mode::Exact),
             0..=23 => SMode::Base(Mode::Exact),
             24..=33 => SMode::Base(Mode::Quantified),
             34..=43 => SMode::Base(Mode::Globbed),
@@ -302,10 +409,12 @@ fn gen_doc(fmt: Format, seed: u64, idx: u64) -> SDoc {
             89..=98 => SMode::Base(Mode::NearMiss),
             _ => SMode::Base(Mode::Regex),
         };
-        let out = payload(&mut rng);
+        let sgr = (cfg == DocCfg::AllStripAnsi && rng.chance(3, 4)) || (strip_focus && rng.chance(1, 2));
+        let out = if sgr { sgr_payload(&mut rng) } else { payload(&mut rng) };
         let err = match rng.below(6) {
             0 => out.clone(),
             1 | 2 => vec![],
+            _ if sgr && rng.chance(1, 2) => sgr_payload(&mut rng),
             _ => payload(&mut rng),
         };
         let code = match rng.below(100) {
@@ -325,6 +434,7 @@ fn gen_doc(fmt: Format, seed: u64, idx: u64) -> SDoc {
             (_, DocCfg::AllStdout) => ICfg::Stdout,
             (_, DocCfg::AllNoKeepCrlf) => ICfg::NoKeepCrlf,
             (_, DocCfg::AllSkip3) => ICfg::Skip3,
+            (_, DocCfg::AllStripAnsi) => ICfg::StripAnsi,
             (_, DocCfg::Deviant) if k == deviant_at => deviant_cfg,
             _ => match rng.below(10) {
                 0 => ICfg::KeepCrlf,
@@ -373,6 +483,8 @@ fn gen_doc(fmt: Format, seed: u64, idx: u64) -> SDoc {
             }
             _ => (out, err),
         };
+        // (iii) an unterminated control string at the end of this test's stdout
+        let out = if open_osc == Some(k) { [&out[..], b"\x1b]0;t"].concat() } else { out };
         let mut t = STest {
             out,
             err,
@@ -426,7 +538,7 @@ fn gen_doc(fmt: Format, seed: u64, idx: u64) -> SDoc {
         Format::Compat => FILLERS.len(),
     } as u64;
     let fillers = (0..=tests.len()).map(|_| (0..rng.range(0, 2)).map(|_| rng.below(nf) as usize).collect()).collect();
-    SDoc { fmt, cfg, tests, front_matter: fmt == Format::Compat && rng.chance(1, 6), crlf_document: rng.chance(1, 10), broken, fillers, escaper }
+    SDoc { fmt, cfg, tests, front_matter: fmt == Format::Compat && rng.chance(1, 6), crlf_document: rng.chance(1, 10), broken, fillers, escaper, open_osc }
 }
 
 fn command(dir: &Path, k: usize, t: &STest) -> (String, String) {
@@ -605,8 +717,8 @@ fn sruns_field(tests: &[(Vec<u8>, Vec<u8>, i32, bool)]) -> String {
     }
 }
 
-fn case(prop: &str, fmt: Format, seed: u64, idx: u64, root: &Path, name: String, verbose: bool) -> CaseRec {
-    let d = gen_doc(fmt, seed, idx);
+fn case(prop: &str, fmt: Format, strip_focus: bool, seed: u64, idx: u64, root: &Path, name: String, verbose: bool) -> CaseRec {
+    let d = gen_doc(fmt, seed, idx, strip_focus);
     let dir = root.join(name);
     let _ = std::fs::remove_dir_all(&dir);
     std::fs::create_dir_all(dir.join("tmp")).unwrap();
@@ -629,7 +741,7 @@ fn case(prop: &str, fmt: Format, seed: u64, idx: u64, root: &Path, name: String,
 
     let tag = fmt.op();
     let runs: Vec<(Vec<u8>, Vec<u8>, i32, bool)> = d.tests.iter().map(|t| (t.out.clone(), t.err.clone(), t.code, t.leaves)).collect();
-    let op = format!("{tag} {} {} {seed}.{idx}", hex(&doc), sruns_field(&runs));
+    let op = format!("{tag} {} {} {seed}.{idx}{}", hex(&doc), sruns_field(&runs), if strip_focus { ".s" } else { "" });
     let has_regex = d.tests.iter().any(|t| t.mode == SMode::Base(Mode::Regex));
     let impl_out = if has_regex && d.broken.is_none() { "unsupported".to_string() } else { ran.line.clone() };
 
@@ -644,8 +756,14 @@ fn case(prop: &str, fmt: Format, seed: u64, idx: u64, root: &Path, name: String,
     let first_leave = d.tests.iter().position(|t| t.leaves);
     let upto = first_leave.map_or(d.tests.len(), |k| k + 1);
     let skipped_doc = d.tests[..upto].iter().any(|t| t.code == skip);
-    // the configuration of every block is the same as far as the executor cares
-    let uniform = d.cfg != DocCfg::Deviant;
+    // the configuration of every block is the same as far as the executor cares (`strip_ansi_escaping` on some
+    // blocks of a document is a deviation since the key is one of `set_consistent!`); a control string that a command
+    // leaves open runs into the divider lines: no statement by the direct oracles, the model decides
+    let some_strip = d.cfg != DocCfg::AllStripAnsi && d.tests.iter().any(|t| matches!(t.icfg, ICfg::StripAnsi | ICfg::NoStripAnsi));
+    // a lone ESC / an open sequence at the end of a payload (the pool holds none, but be exact): ends inside a sequence
+    let ends_open = |b: &[u8]| strip_own(&[b, b"~"].concat()).len() != strip_own(b).len() + 1;
+    let open_seq = d.cfg == DocCfg::AllStripAnsi && (d.open_osc.is_some() || d.tests.iter().any(|t| ends_open(&t.out) || ends_open(&t.err) || ends_open(&[&t.out[..], &t.err[..]].concat())));
+    let uniform = d.cfg != DocCfg::Deviant && !some_strip && !open_seq;
     let expect_error = uniform && !skipped_doc && first_leave.is_some();
     match (&ran.results, d.broken) {
         (_, Some((b, _))) => {
@@ -687,10 +805,14 @@ fn case(prop: &str, fmt: Format, seed: u64, idx: u64, root: &Path, name: String,
             } else if uniform {
                 for (k, t) in d.tests.iter().enumerate() {
                     let right_code = matches!(t.expected, Expected::Right | Expected::RightExplicitZero);
-                    // strip_ansi_escaping is (silently) without effect in this mode: no statement about such a block
-                    let plain_block = t.icfg != ICfg::StripAnsi;
+                    let plain_block = true;
                     if t.mode == SMode::Base(Mode::Exact) && right_code && plain_block && got_of(k) != Some("success") {
                         fails.push((format!("C05:{tag}-own-lines-fail"), describe(&format!("test {k} expects exactly its own output and exit code, reported {:?}", got_of(k)))));
+                        // C16: the key is set on every test case of the document (inline layer, nothing above it) and
+                        // the expectations are the lines without the escape sequences
+                        if d.cfg == DocCfg::AllStripAnsi {
+                            fails.push(("C16:script-strip-ansi-dropped".to_string(), describe(&format!("every test case sets `strip_ansi_escaping: true` and test {k} expects exactly its own output without the ANSI escape sequences, reported {:?}: the key is not in effect in the single-script executor", got_of(k)))));
+                        }
                     }
                     // `\*`, `\?`, `\\` stand for the characters themselves, `*` for any run
                     if t.mode == SMode::CramGlob && t.cram_glob_all_right && right_code && got_of(k) != Some("success") {
@@ -713,6 +835,17 @@ fn case(prop: &str, fmt: Format, seed: u64, idx: u64, root: &Path, name: String,
     }
     if d.crlf_document {
         tags.push(format!("{tag}:crlf-document"));
+    }
+    if let Some(k) = d.open_osc {
+        tags.push(format!("{tag}:open-osc"));
+        tags.push(format!("{tag}:open-osc->{}", impl_out.split(' ').next().map(|w| if w.contains(':') || w == "-" { "report" } else { w }).unwrap_or("")));
+        let _ = k;
+    }
+    if d.cfg == DocCfg::AllStripAnsi && d.tests.iter().any(|t| t.out.contains(&0x1b) || t.err.contains(&0x1b)) {
+        tags.push(format!("{tag}:strip-ansi-with-sequences"));
+    }
+    if some_strip {
+        tags.push(format!("{tag}:strip-ansi-on-some-blocks"));
     }
     if d.front_matter {
         tags.push(format!("{tag}:front-matter"));
@@ -887,16 +1020,31 @@ pub fn run(ctx: &Ctx, prop: &str) {
     let root = tmproot("script");
     std::fs::create_dir_all(&root).unwrap();
     let n = if ctx.thorough { 2000 } else { 120 };
-    ctx.run_stream("e2e-testcram", n, false, |idx| Some(case(prop, Format::Cram, seed, idx, &root, format!("c{idx}"), false)));
+    ctx.run_stream("e2e-testcram", n, false, |idx| Some(case(prop, Format::Cram, false, seed, idx, &root, format!("c{idx}"), false)));
     ctx.note("e2e-testcram: Cram documents `doc.t` with 0-4 tests `cat pK.out; cat pK.err >&2; (exit N)` (two-blank indentation, titles, `> ` continuation lines, # comments, commands directly below the body of another test; expectations derived from the known COMBINED output, CR LF kept: exact, quantified, globs incl. Cram escapes `\\*` `\\?` `\\\\` right and wrong, optional noise, multiline runs, stale, missing, stderr only, trailing-blank near misses; exit code right / wrong / absent; a test ending with the skip code 80; a command that leaves the shell with `exit N`; malformed documents) through the real binary `scrut test -r json doc.t`; verdict list / `exec-error` / `parse-error` and exit status are compared with the INTEGRATED Lean model (`testcram`: read_file, Cram parser, grammar with the Cram glob, compile_testcase, script output layout, render_output, divider protocol, execScript, validate, result mapping, exit status composed)".into());
     if prop != "C07" {
-        ctx.run_stream("e2e-testdoc-cram-compat", n, false, |idx| Some(case(prop, Format::Compat, seed, idx, &root, format!("m{idx}"), false)));
-        ctx.note("e2e-testdoc-cram-compat: Markdown documents run with `--cram-compat` (Markdown parser with the Cram expectation maker and default_cram(): combined, CR LF kept; single-script executor): inline configuration written out / on every block (output_stream stderr|stdout, keep_crlf false, skip_document_code 3) / on ONE block (inconsistent configuration, per-test timeout, `detached: false`: exec-error unless consistent by the rule of set_consistent!) / strip_ansi_escaping (without effect); same expectation generators as e2e-testcram; compared with the integrated model op `testdocc`".into());
+        ctx.run_stream("e2e-testdoc-cram-compat", n, false, |idx| Some(case(prop, Format::Compat, false, seed, idx, &root, format!("m{idx}"), false)));
+        ctx.note("e2e-testdoc-cram-compat: Markdown documents run with `--cram-compat` (Markdown parser with the Cram expectation maker and default_cram(): combined, CR LF kept; single-script executor): inline configuration written out / on every block (output_stream stderr|stdout, keep_crlf false, skip_document_code 3) / on ONE block (inconsistent configuration, per-test timeout, `detached: false`: exec-error unless consistent by the rule of set_consistent!) / strip_ansi_escaping on every block (the whole captured stream is stripped; payloads with SGR sequences) or on one block (a deviation); same expectation generators as e2e-testcram; compared with the integrated model op `testdocc`".into());
+    }
+    if prop != "C07" {
+        run_strip(ctx, prop);
     }
     if prop != "C07" {
         ctx.run_stream("e2e-script-incomplete-expression-exhaustive", inc_total(), true, |idx| Some(incomplete_case(prop, &inc_op(idx), &root, format!("i{idx}"), false)));
         ctx.note("e2e-script-incomplete-expression-exhaustive: Cram documents, Markdown documents under --cram-compat (combined) and with `{output_stream: stdout}` on every block (separate streams: the `1>&2 echo` divider line is in the script) in which one test case -- the first of two or the middle one of three -- has NO expectations and an expression that bash continues over scrut's footer: `sh -c 'echo garbage; exit 7'`, `sh -c 'echo garbage >&2; exit 7'`, `sh -c 'exit 7'`, `echo garbage`, `true` (control) followed by ` |`, ` |&`, ` &&`, ` ||`, ` \\`, and five expressions that end inside a single / double quote; the test cases around it pass. Real binary; outside the model (a run of its own does not exist for such an expression): direct oracle only -- the command that is meant is run in plain bash, and when it writes output or does not end with 0 the test case must not be reported as succeeded (C05:single-script-incomplete-expression-passes) and the exit status must not be 0 (C20:single-script-incomplete-expression-exit-status)".into());
     }
+    let _ = std::fs::remove_dir_all(&root);
+}
+
+/// the stream focused on `strip_ansi_escaping` under `--cram-compat` (C05 / C20, and C16: the key has to be in effect
+/// from the inline layer in the single-script executor too)
+pub fn run_strip(ctx: &Ctx, prop: &str) {
+    let seed = ctx.seed;
+    let root = tmproot("script-strip");
+    std::fs::create_dir_all(&root).unwrap();
+    let n = if ctx.thorough { 1000 } else { 80 };
+    ctx.run_stream("e2e-testdoc-cram-compat-strip-ansi", n, false, |idx| Some(case(prop, Format::Compat, true, seed, idx, &root, format!("s{idx}"), false)));
+    ctx.note("e2e-testdoc-cram-compat-strip-ansi: Markdown documents run with `--cram-compat` whose blocks carry `strip_ansi_escaping`: (i) `true` on every block, payloads with SGR sequences `ESC [ … m` around / inside the lines, expectations = the lines without the sequences (harness' own re-statement of ECMA-48, not the library function), (ii) the key (`true` / `false`) on ONE block (execution error unless consistent by the rule of set_consistent!), (iii) an unterminated OSC `ESC ] 0 ; t` at the end of one test's stdout (the stripping of the whole stream takes the dividers with it: model decides, `exec-error`); real binary vs. integrated model op `testdocc`; direct oracle C16:script-strip-ansi-dropped (every test sets the key, a test that expects exactly its stripped lines is not reported as succeeded) and the C05/C20 oracles of e2e-testdoc-cram-compat".into());
     let _ = std::fs::remove_dir_all(&root);
 }
 
@@ -923,10 +1071,11 @@ pub fn replay(prop: &str, op: &str) -> bool {
         return rec.oracle_fail.is_empty();
     }
     let fmt = if parts.first() == Some(&"testcram") { Format::Cram } else { Format::Compat };
-    if let Some((Ok(seed), Ok(idx))) = parts.get(3).and_then(|c| c.split_once('.')).map(|(a, b)| (a.parse::<u64>(), b.parse::<u64>())) {
+    let strip_focus = parts.get(3).is_some_and(|c| c.ends_with(".s"));
+    if let Some((Ok(seed), Ok(idx))) = parts.get(3).map(|c| c.trim_end_matches(".s")).and_then(|c| c.split_once('.')).map(|(a, b)| (a.parse::<u64>(), b.parse::<u64>())) {
         let root = tmproot("script-replay");
         std::fs::create_dir_all(&root).unwrap();
-        let rec = case(prop, fmt, seed, idx, &root, "r".into(), true);
+        let rec = case(prop, fmt, strip_focus, seed, idx, &root, "r".into(), true);
         let _ = std::fs::remove_dir_all(&root);
         println!("{}: {}", fmt.command_line(), rec.impl_out);
         println!("model op: {}", rec.op);
